@@ -133,7 +133,10 @@ impl<R: Read + Seek> ReadBox<&mut R> for TrunBox {
             sample_cts.reserve(sample_count as usize);
         }
 
-        for _ in 0..sample_count {
+        // Without any per-sample field there is nothing to read; sample_count is then not
+        // bounded by the box size and must not drive a loop.
+        let per_sample_fields = sample_size > 0;
+        for _ in 0..if per_sample_fields { sample_count } else { 0 } {
             if TrunBox::FLAG_SAMPLE_DURATION & flags > 0 {
                 let duration = reader.read_u32::<BigEndian>()?;
                 sample_durations.push(duration);
